@@ -105,7 +105,7 @@ class C19(Check):
         return C.scenarios(scenario)
 
     def examples(self, tier):
-        return 7 if tier == "quick" else 200
+        return 4 if tier == "quick" else 200
 
     def budget_s(self, tier):
         return 600.0 if tier == "quick" else 1700.0
